@@ -6,6 +6,31 @@ ROOT = os.path.dirname(os.path.dirname(os.path.abspath(__file__)))
 
 # id -> dict(engine, category, technique, text, note, design_ref, thorough=True)
 CHECKS = {
+    "C01": dict(
+        engine="E1-xplore", category="model_checking", design_ref="§3 C01/C11/C12",
+        technique="explicit-state BFS (canonical-dump dedup) over app-script / packet-assembly interleavings and deviation-bounded network fates of two real stream endpoints wired back to back; perfect-network completion run from every state",
+        text="Two real DataStreams+FlowController+reliable-frame-deque endpoints exchange real frame bytes (re-parsed by the real FrameReader). Every interleaving of the application scripts, reads and packet assembly is explored together with every network fate (reorder/delay, deliver-without-ack + late ack, loss incl. spurious, duplicate, late arrival after loss) up to 1 (thorough: 2) deviations; bytes read == bytes written in order exactly once, EOF only after the last byte; from every reachable state a perfect-network run must deliver everything, report EOF and complete flush/shutdown.",
+        note="Streams of <= 6 bytes (thorough adds 2x9000 bytes), packet capacities 26..1200, 5 small scripts quick / 11 scripts thorough; ack/loss feedback mirrors qconnection's AckDataSpace/DataTracker call sequence; app polls use a no-op waker (wake-ups are C16's subject)."),
+    "C03": dict(
+        engine="E0-enum", category="exploration", design_ref="§3 C03",
+        technique="exhaustive enumeration of byte strings (all strings over a 12-byte alphabet up to length 5-7 with every first byte, every prefix / single-position substitution of a corpus of valid encodings) through the real decoders",
+        text="PacketReader (dcid len 0/8/20), FrameReader (4 packet types), transport-parameter parsers and nom sub-parsers are run on ~14 M (thorough ~530 M) systematically enumerated inputs; no panic, progress on every Ok item, no out-of-input lengths, prescribed error kinds, malformed datagrams dropped.",
+        note="Exhaustive over the stated input families, not over all byte strings; in-process (an abort would be a machinery failure)."),
+    "C05": dict(
+        engine="E0-enum", category="exploration", design_ref="§3 C05",
+        technique="exhaustive enumeration of boundary-value products of every encodable value, encoded with the crate's writers and decoded with the real readers in every permitted packet type",
+        text="All frame kinds x flag combinations x boundary varints/byte-field lengths, headers, cids, addresses, tokens, transport-parameter sets: bytes written == encoding_size() <= max_encoding_size(), decode == original with exact consumption, Package::dump into exactly the announced size succeeds and into one byte less fails cleanly; STREAM/CRYPTO admission composition over every remaining-space value.",
+        note="Boundary sets stand in for the 62-bit domains; values outside the RFC-valid domain (e.g. zero-length cid in preferred_address) are excluded."),
+    "C06": dict(
+        engine="E0-enum", category="exploration", design_ref="§3 C06",
+        technique="exhaustive enumeration of packet shapes and of every single-bit corruption, through the real PacketWriter/encrypt path and the real PacketReader -> CipherPacket::decrypt_* receive path with keys from a real in-process rustls handshake",
+        text="Every packet type x cid length x payload size x pn length round-trips bit-for-bit; every single-bit flip of every packet (all 8*len positions), wrong pn positions, wrong-key views and key-update scenarios must be dropped without delivering frames and without a connection error.",
+        note="Handshake keys are fresh per run (random), signatures and counts are key-independent; Retry integrity not modelled."),
+    "C07": dict(
+        engine="E1-xplore", category="model_checking", design_ref="§3 C07",
+        technique="explicit-state BFS over begin/record/build/abandon/ack/loss histories of the real ArcSentJournal (pn uniqueness) + exhaustive enumeration of (pn, largest_acked, receiver position) triples through PacketNumber encode -> wire -> decode",
+        text="(a) every history <= 7 ops (thorough 9) of packet assemblies (0-2 frames, trivial, build_with_time/build_trivial, abandoned guards) interleaved with acks/losses: every built packet's number is strictly larger than all earlier ones, abandoned assemblies consume nothing; (b) ~14 M (thorough 290 M) triples: decode(encode(pn, la), expected) == pn.",
+        note="(a) <= 3-4 packets; (b) boundary sets for pn and distances; the end-to-end qlog monitor (c) is not built yet."),
     "C08": dict(
         engine="E1-xplore", category="model_checking", design_ref="§3 C08",
         technique="explicit-state BFS to closure over operation histories of the real RecvBuf against a covered-offset-set reference",
@@ -14,11 +39,49 @@ CHECKS = {
     "C09": dict(
         engine="E1-xplore", category="model_checking", design_ref="§3 C09",
         technique="explicit-state BFS to closure over operation histories of the real SendBuf against a per-byte colour reference, plus a perfect-network completion run from every state",
-        text="Every reachable state of the real SendBuf for 3–4 byte streams (thorough: 5–6) under writes, window extensions, pick-ups with all cap/flow limits, acks / loss reports of every previously picked range (and the empty FIN range) and resend_flighting; oracle per pick + completion liveness from every state.",
+        text="Every reachable state of the real SendBuf for 3-4 byte streams (thorough: 5-6) under writes, window extensions, pick-ups with all cap/flow limits, acks / loss reports of every previously picked range (and the empty FIN range) and resend_flighting; oracle per pick + completion liveness from every state.",
         note="Stream length bounded; ack/loss ranges are previously picked ranges as the property quantifies; predicate capacity >= 1."),
+    "C10": dict(
+        engine="E1-xplore", category="model_checking", design_ref="§3 C10",
+        technique="explicit-state BFS (canonical-dump dedup, virtual clock) over histories of the real ArcRcvdJournal and ArcSentJournal + exhaustive capacity sweep of ACK generation",
+        text="Received side: arrivals of pn 0..5 in any order with duplicates, ACK generation at every capacity from minimum-1 upward, peer acknowledging ACK-carrying packets, expiry; generated frames acknowledge only received numbers, report the requested largest, cover everything not yet confirmed when space allows, always fit. Sent side: packets with 0-2 frames / trivial / skipped, ACKs of every subset, losses, fast retransmit, clock advances; exactly the frames of newly acked packets are reported once, frames of lost packets are offered for retransmission. Sweep: 2..81 one-packet ranges x every capacity.",
+        note="pn alphabet 0..6, <= 3-4 sent packets, depth <= 7-9; a guard is never abandoned after record_frame (no call site can)."),
+    "C11": dict(
+        engine="E1-xplore", category="model_checking", design_ref="§3 C01/C11/C12",
+        technique="explicit-state BFS over the two-endpoint stream pipe with tiny unequal flow-control parameters (send side) + exhaustive enumeration of hostile frames after short histories through the real FlowControlledDataStreams (receive side)",
+        text="Send side: with the six initial flow-control parameters set to permutations of (2,5,9) and connection windows 0/4/64, every STREAM frame on the wire stays within the per-stream limit and the connection limit the sender has received, each byte is charged once (sent_data == distinct bytes at quiescence), advertised MAX_* never decrease. Receive side: every STREAM/RESET_STREAM shape beyond the stream or connection limit, with and without FIN, yields FLOW_CONTROL_ERROR.",
+        note="Quick tier runs some configurations under a 15 s cap (reported in caps_hit when not closed); streams <= 7 bytes; the real reader raises windows to 2 MB after the first read."),
+    "C12": dict(
+        engine="E1-xplore", category="model_checking", design_ref="§3 C01/C11/C12",
+        technique="explicit-state BFS over the two-endpoint stream pipe with stream-count limits 0..3 and both concurrency strategies (local opens) + exhaustive enumeration of peer frames x stream-id classes after short legitimate histories (peer side)",
+        text="Local opens never exceed the count the peer has granted as known to the opener; MAX_STREAMS never decreases; every stream is offered to accept exactly once. Peer side: every frame kind x (initiator, direction) x index {0,max-1,max,max+1,2^60-1} x 19 payload shapes, for both roles, counts {0,1,3}^2, both strategies, 3 prefixes: stream-limit / stream-state / flow-control verdicts per RFC 9000; two-frame final-size contradictions; implicit opening of lower-numbered streams exactly once.",
+        note="Final-size clauses are demanded only while the receiving part of the stream is still open (the RFC's 'even after closed' is a SHOULD)."),
+    "C15": dict(
+        engine="E1-xplore", category="model_checking", design_ref="§3 C15",
+        technique="explicit-state BFS to closure over arrival / burst / grant / abort histories of the real AntiAmplifier + Constraints + ArcSendWaker driven by a line-by-line mirror of the Burst call protocol",
+        text="Until granted, total sent <= 3 x total received after every step, the credit reported by balance() never exceeds 3*rcvd - sent (no wrap), sending resumes after rcvd/grant, abort reports the path gone, a parked sender is woken.",
+        note="Part (a) only: the burst loop itself is mirrored in the harness (a change inside burst.rs is seen only after the mirror is updated); the full-stack monitor (b) is not built yet."),
+    "C18": dict(
+        engine="E0-enum", category="exploration", design_ref="§3 C18",
+        technique="exhaustive enumeration of transport-parameter blobs (each id x boundary/illegal values x role, all pairs of illegal choices, unknown/duplicate ids) against an independent RFC 9000 18.2/7.3/7.4 legality table, plus enumeration of cid-binding orders, idle-timeout pairs and 0-RTT remembered-parameter comparisons on the real Parameters state machine",
+        text="parse_from_bytes accepts exactly the legal sets and answers everything else with TRANSPORT_PARAMETER_ERROR, never a panic; readiness iff the declared cids equal the observed ones in both arrival orders with waiters woken; idle timeout = min non-zero; remembered parameters honoured only if nothing shrank; every accepted set is applied to the real consumers without panic.",
+        note="Boundary values + documented bounds +-1 per id; SHOULD-level rules (duplicates) are counted, not judged."),
+    "C19": dict(
+        engine="E0-enum", category="exploration", design_ref="§3 C19",
+        technique="exhaustive enumeration of datagram sizes x peer maxima x remaining-space values x queue contents on the real DatagramFlow writer/assembler/reader, bytes re-parsed by the real FrameReader, plus an E1 closure over send/assemble/receive histories",
+        text="A datagram is refused iff no DATAGRAM frame carrying it fits the peer's maximum; every emitted frame is exactly one queued datagram, unchanged, FIFO, a length-less frame only last with padding before it; oversize received frames yield PROTOCOL_VIOLATION; after a connection error everything fails with it.",
+        note="Part (a) only (component level): DatagramFlow::try_load_data_into has no caller in qconnection, so end-to-end transmission (part b) is not exercised yet."),
 }
 
-NOT_YET = {}
+NOT_YET = {
+    "C02": "full-stack fault enumeration (E3 netsim) not built yet; bounded exhaustive fate enumeration applies (DESIGN.md §3 C02)",
+    "C04": "hostile-frame cost/verdict enumeration not built yet; bounded exhaustive enumeration applies (DESIGN.md §3 C04)",
+    "C13": "loss-detection / congestion-control state search not built yet (DESIGN.md §3 C13)",
+    "C14": "connection-id state search being built (DESIGN.md §3 C14)",
+    "C16": "controlled-scheduler scenarios not built yet; engine E2 exists in mc-core (DESIGN.md §3 C16)",
+    "C17": "close/fail exploration not built yet (DESIGN.md §3 C17)",
+    "C20": "event-logging checks need the E3 netsim, not built yet (DESIGN.md §3 C20)",
+}
 
 def main():
     props = [json.loads(l) for l in open(os.path.join(ROOT, "properties.jsonl"))]
